@@ -43,13 +43,22 @@ func init() {
 				}
 			}
 		}
+		// every element type against one-element operands (rank 0, (1), (1,1)) and a plain stretch, both orders
+		for _, dt := range []string{"float32", "float64", "int64", "int32", "uint8", "bool"} {
+			for _, pr := range [][2][]int{{{}, {2}}, {{1}, {2, 2}}, {{1, 1}, {2}}, {{2, 1}, {1, 2}}, {{}, {}}, {{1}, {1, 1}}} {
+				for _, mode := range []string{"multi", "uni"} {
+					p.Jobs = append(p.Jobs, Job{Harness: "ops.H_C14", Case: map[string]interface{}{"a": pr[0], "b": pr[1], "mode": mode, "dtype": dt}})
+					p.Jobs = append(p.Jobs, Job{Harness: "ops.H_C14", Case: map[string]interface{}{"a": pr[1], "b": pr[0], "mode": mode, "dtype": dt}})
+				}
+			}
+		}
 		// a few larger extents
 		for _, pr := range [][2][]int{{{4, 1}, {1, 4}}, {{3, 1, 4}, {4}}, {{4}, {4, 4}}, {{2, 4}, {4, 2}}, {{1, 4, 1}, {3, 1, 2}}, {{4}, {2}}, {{2, 3}, {4, 3}}, {{9}, {3}}} {
 			for _, mode := range []string{"multi", "uni"} {
 				p.Jobs = append(p.Jobs, Job{Harness: "ops.H_C14", Case: map[string]interface{}{"a": pr[0], "b": pr[1], "mode": mode, "dtype": "float32"}})
 			}
 		}
-		p.Bounds = []string{"all ordered pairs of shapes of rank 0..3 with extents {1,2} (thorough: rank 0..4, extents {1,2,3}), both helpers, plus selected pairs with extents 4 and 9", "all element values symbolic (float32, int64, bool, uint8 rotated over the pairs)"}
+		p.Bounds = []string{"all ordered pairs of shapes of rank 0..3 with extents {1,2} (thorough: rank 0..4, extents {1,2,3}), both helpers, plus selected pairs with extents 4 and 9", "all element values symbolic (float32, int64, bool, uint8 rotated over the pairs; float32/float64/int64/int32/uint8/bool each against one-element operands of rank 0..2)"}
 		p.Outside = []string{"extents > 3 beyond the listed pairs; the 'random larger shapes' clause of the quantifier is replaced by the bounded-exhaustive set"}
 		p.Explanation = "MultidirectionalBroadcast / UnidirectionalBroadcast and helpers executed symbolically; tensor.Repeat/Reshape/Clone run by the real gorgonia on term-id tensors"
 		return p
